@@ -8,6 +8,7 @@ genesis carries, for any store; the exact fate of a latest-only kind.
 -/
 import Canine.Genesis.Model
 import Canine.Proofs.GenesisModules
+import Canine.Proofs.GenesisStorageInv
 namespace Canine.Genesis
 
 variable {V : Type}
@@ -464,6 +465,114 @@ theorem C19_storage_index_invariant_preserved (s : Canine.Storage.State) (h : St
     exact (h.idx.ok k f hf).congr (fun pk _ _ => g3 pk)
 
 
+/-! ### the storage invariants hold on every reachable state
+
+Histories: `SI.HEv` (Proofs/GenesisStorageInv.lean) = the events of `C17_along_histories`
+(`Canine.Storage.Ev`: a delivered message — a failed one commits nothing — or a block boundary, applied by
+`Canine.Storage.applyEv`) plus `setParams p` (the state with only `params` replaced); `SI.runH` folds
+`SI.applyH` over the list. -/
+
+/-- **every storage message preserves `Storage.Inv`** — no side condition on the op or its oracle inputs:
+each handler builds the record and its key from the same values (`newGauge'` stores the gauge with
+`id := gid` under `gid`; a form is stored under `(prover, f.key)` for the file `f` found under
+`(merkle, owner, start)`, which is its own key by the index invariant; plan records are written under
+their own `address` field) -/
+theorem C19_storage_inv_preserved_by_messages (s s' : Canine.Storage.State) (h now : Int) (op : Canine.Storage.Op)
+    (hstep : Canine.Storage.step s h now op = some s') (hinv : Storage.Inv s) : Storage.Inv s' :=
+  SI.inv_step s s' h now op hstep hinv
+
+/-- … delivered or failed (`stepT`) -/
+theorem C19_storage_inv_preserved_by_stepT (s : Canine.Storage.State) (h now : Int) (op : Canine.Storage.Op)
+    (hinv : Storage.Inv s) : Storage.Inv (Canine.Storage.stepT s h now op) :=
+  SI.inv_stepT s h now op hinv
+
+/-- **the reward block preserves `Storage.Inv`** -/
+theorem C19_storage_inv_preserved_by_reward_block (s s' : Canine.Storage.State) (h now : Int)
+    (hblock : Canine.Storage.beginBlock s h now = .ok s') (hinv : Storage.Inv s) : Storage.Inv s' :=
+  SI.inv_beginBlock hblock hinv
+
+/-- **a parameter change preserves `Storage.Inv`** -/
+theorem C19_storage_inv_preserved_by_param_change (s : Canine.Storage.State) (p : Canine.Storage.Params)
+    (hinv : Storage.Inv s) : Storage.Inv { s with params := p } :=
+  SI.inv_params p hinv
+
+/-- **`Storage.Inv` holds for the empty stores** (whatever bank, parameters, account names, blocked list) -/
+theorem C19_storage_inv_empty (s : Canine.Storage.State) (h : SI.EmptyStores s) : Storage.Inv s := SI.inv_empty h
+
+theorem C19_storage_inv_blank (s : Canine.Storage.State) : Storage.Inv (Storage.blank s) :=
+  SI.inv_empty (SI.emptyStores_blank s)
+
+/-- **`Storage.Inv` holds after every history** of messages (delivered or failed), blocks and parameter
+changes from any state satisfying it -/
+theorem C19_storage_inv_along_histories (evs : List SI.HEv) (s : Canine.Storage.State) (h : Storage.Inv s) :
+    Storage.Inv (SI.runH s evs) := SI.inv_runH evs s h
+
+/-- … in particular from the empty stores -/
+theorem C19_storage_inv_along_histories_from_empty (evs : List SI.HEv) (s0 : Canine.Storage.State)
+    (h0 : SI.EmptyStores s0) : Storage.Inv (SI.runH s0 evs) := SI.inv_runH evs s0 (SI.inv_empty h0)
+
+/-- **`RawInv` from slash-freeness**: when the string components of the stored keys contain no '/', distinct
+decoded keys have distinct raw keys -/
+theorem C19_storage_rawInv_of_slashFree (s : Canine.Storage.State) (hsf : SI.SlashFree s) (h : Storage.Inv s) :
+    Storage.RawInv s := SI.rawInv_of_slashFree hsf h
+
+/-- **every message whose new key strings are slash-free preserves `SlashFree`** (`SI.OpSlashFree`: creator
+and merkle of `MsgPostFile`, creator of `MsgPostProof`; no other message writes a key that is not a
+key already) -/
+theorem C19_storage_slashFree_preserved_by_messages (s s' : Canine.Storage.State) (h now : Int) (op : Canine.Storage.Op)
+    (hstep : Canine.Storage.step s h now op = some s') (hop : SI.OpSlashFree op) (hinv : Storage.Inv s)
+    (hsf : SI.SlashFree s) : SI.SlashFree s' :=
+  SI.slashFree_step s s' h now op hstep hop hinv.idx hsf
+
+theorem C19_storage_slashFree_preserved_by_reward_block (s s' : Canine.Storage.State) (h now : Int)
+    (hblock : Canine.Storage.beginBlock s h now = .ok s') (hinv : Storage.Inv s) (hsf : SI.SlashFree s) : SI.SlashFree s' :=
+  SI.slashFree_beginBlock hblock hinv.idx hsf
+
+/-- along every history with slash-free ops, from any state satisfying both -/
+theorem C19_storage_invs_along_histories (evs : List SI.HEv) (s : Canine.Storage.State)
+    (hops : ∀ e ∈ evs, SI.HEvSlashFree e) (h : Storage.Inv s) (hsf : SI.SlashFree s) :
+    Storage.Inv (SI.runH s evs) ∧ SI.SlashFree (SI.runH s evs) ∧ Storage.RawInv (SI.runH s evs) := by
+  obtain ⟨a, b⟩ := SI.both_runH evs s hops ⟨h, hsf⟩
+  exact ⟨a, b, SI.rawInv_of_slashFree b a⟩
+
+/-- **both hypotheses of the C19 storage theorems hold on every reachable state**: after every history
+of messages, blocks and parameter changes from the empty stores whose ops are slash-free -/
+theorem C19_storage_reachable (evs : List SI.HEv) (s0 : Canine.Storage.State) (h0 : SI.EmptyStores s0)
+    (hops : ∀ e ∈ evs, SI.HEvSlashFree e) :
+    Storage.Inv (SI.runH s0 evs) ∧ Storage.RawInv (SI.runH s0 evs) := by
+  obtain ⟨a, _, c⟩ := C19_storage_invs_along_histories evs s0 hops (SI.inv_empty h0) (SI.slashFree_empty h0)
+  exact ⟨a, c⟩
+
+theorem C19_storage_roundtrip_reachable (evs : List SI.HEv) (s0 : Canine.Storage.State) (h0 : SI.EmptyStores s0) :
+    Storage.initGenesis (Storage.blank (SI.runH s0 evs)) (Storage.exportGenesis (SI.runH s0 evs)) =
+      Storage.storeOrdered (SI.runH s0 evs) :=
+  C19_storage_roundtrip _ (C19_storage_inv_along_histories_from_empty evs s0 h0)
+
+theorem C19_storage_export_idempotent_reachable (evs : List SI.HEv) (s0 : Canine.Storage.State) (h0 : SI.EmptyStores s0)
+    (hops : ∀ e ∈ evs, SI.HEvSlashFree e) :
+    Storage.exportGenesis (Storage.initGenesis (Storage.blank (SI.runH s0 evs)) (Storage.exportGenesis (SI.runH s0 evs))) =
+      Storage.exportGenesis (SI.runH s0 evs) :=
+  C19_storage_export_idempotent _ (C19_storage_reachable evs s0 h0 hops).1 (C19_storage_reachable evs s0 h0 hops).2
+
+theorem C19_storage_validate_accepts_export_reachable (evs : List SI.HEv) (s0 : Canine.Storage.State)
+    (h0 : SI.EmptyStores s0) (hops : ∀ e ∈ evs, SI.HEvSlashFree e)
+    (hp : 0 ≤ (SI.runH s0 evs).params.polRatio ∧ 0 ≤ (SI.runH s0 evs).params.referralCommission) :
+    Storage.validate (Storage.exportGenesis (SI.runH s0 evs)) = true :=
+  C19_storage_validate_accepts_export _ (C19_storage_reachable evs s0 h0 hops).1 (C19_storage_reachable evs s0 h0 hops).2 hp
+
+theorem C19_storage_queries_preserved_reachable (evs : List SI.HEv) (s0 : Canine.Storage.State) (h0 : SI.EmptyStores s0)
+    (hops : ∀ e ∈ evs, SI.HEvSlashFree e) (now : Int) (q : Canine.Storage.Query.Q) :
+    Canine.Storage.Query.run
+        (Storage.initGenesis (Storage.blank (SI.runH s0 evs)) (Storage.exportGenesis (SI.runH s0 evs))) now q =
+      Canine.Storage.Query.run (SI.runH s0 evs) now q :=
+  C19_storage_queries_preserved _ (C19_storage_reachable evs s0 h0 hops).1 (C19_storage_reachable evs s0 h0 hops).2 now q
+
+theorem C19_storage_index_invariant_preserved_reachable (evs : List SI.HEv) (s0 : Canine.Storage.State)
+    (h0 : SI.EmptyStores s0) :
+    Canine.Storage.IndexInv
+      (Storage.initGenesis (Storage.blank (SI.runH s0 evs)) (Storage.exportGenesis (SI.runH s0 evs))) :=
+  C19_storage_index_invariant_preserved _ (C19_storage_inv_along_histories_from_empty evs s0 h0)
+
 /-! ## Non-vacuity: the hypotheses hold on concrete states with two or more records per kind
 (none of them listed in iterator order, so `storeOrdered` really reorders) -/
 namespace C19Ex
@@ -616,6 +725,81 @@ example : Storage.RawInv storageSt :=
 
 example : 0 ≤ storageSt.params.polRatio ∧ 0 ≤ storageSt.params.referralCommission := by
   simp only [storageSt]; decide
+
+/-! ### a concrete history from the empty stores: a provider, a plan with its gauge, a file with a
+prover, an attestation form, a parameter change, block boundaries -/
+
+open Canine.Storage in
+def hParams : Params :=
+  { proofWindow := 50, checkWindow := 100, chunkSize := 1024, pricePerTbPerMonth := 8, collateralPrice := 1000,
+    attestFormSize := 3, attestMinToPass := 2, referralCommission := 25, polRatio := 40 }
+
+open Canine.Storage in
+def h0 : State :=
+  { files := [], files2 := [], proofs := [], providers := [], payinfo := [], collateral := [], gauges := [],
+    attests := [], reports := [],
+    bank := [(("jkl1owner", "ujkl"), 1000000000000), (("jkl1p1", "ujkl"), 5000)],
+    params := hParams, moduleAcc := "storage", collateralAcc := "collateral", polAcc := "pol", feeAcc := "fee",
+    blocked := [] }
+
+/-- p1 registers; the owner buys a 3 GB / 30 day plan (a gauge is created and funded), posts a file on
+the plan; p1 proves it and asks for an attestation form; the parameters change; a block boundary that is
+not a reward block -/
+def hist : List SI.HEv :=
+  [ .ev (.msg 5 1000 (.initProvider "jkl1p1" "https://p1.example" "" 1000000 true)),
+    .ev (.msg 6 2000 (.buyStorage "jkl1owner" "jkl1owner" 30 3000000000 "ujkl" none 200000000000000000 "6761" "jkl1gauge1")),
+    .ev (.msg 7 3000 (.postFile "jkl1owner" "aa" 100 3 0 0 "{}" true 200000000000000000 "" "")),
+    .ev (.msg 8 4000 (.postProof "jkl1p1" "aa" "jkl1owner" 7 0 true 5)),
+    .ev (.msg 9 5000 (.requestAttest "jkl1p1" "aa" "jkl1owner" 7 3 ["jkl1p2", "jkl1p3", "jkl1p4"])),
+    .setParams { hParams with attestMinToPass := 3 },
+    .ev (.block 99 5500) ]
+
+/-- the hypotheses of `C19_storage_reachable` -/
+example : SI.EmptyStores h0 := ⟨rfl, rfl, rfl, rfl, rfl, rfl, rfl, rfl, rfl⟩
+example : ∀ e ∈ hist, SI.HEvSlashFree e := by decide
+example : ∀ e ∈ hist ++ [.ev (.block 100 2592000000000000)], SI.HEvSlashFree e := by decide
+
+/-- every message of the history succeeds; the final state holds a provider (with collateral), a plan, a
+gauge, a file with a prover and its proof record, and a form -/
+example :
+    let s := SI.runH h0 hist
+    s.providers.map (·.1) = ["jkl1p1"] ∧ s.collateral = [("jkl1p1", 1000)] ∧ s.payinfo.map (·.1) = ["jkl1owner"] ∧
+    s.gauges.map (·.1) = ["6761"] ∧
+    s.files.map (fun kv => (kv.1, kv.2.proofs)) = [(("aa", "jkl1owner", 7), [("jkl1p1", "aa", "jkl1owner", 7)])] ∧
+    s.files2 = s.files ∧ s.proofs.map (·.1) = [("jkl1p1", "aa", "jkl1owner", 7)] ∧
+    s.attests.map (·.1) = [("jkl1p1", "aa", "jkl1owner", 7)] ∧ s.params.attestMinToPass = 3 := by
+  set_option maxRecDepth 8000 in decide
+
+/-- so `Inv` and `RawInv` hold there, and the C19 storage theorems apply -/
+example : Storage.Inv (SI.runH h0 hist) ∧ Storage.RawInv (SI.runH h0 hist) :=
+  C19_storage_reachable hist h0 ⟨rfl, rfl, rfl, rfl, rfl, rfl, rfl, rfl, rfl⟩ (by decide)
+
+example : Storage.validate (Storage.exportGenesis (SI.runH h0 hist)) = true :=
+  C19_storage_validate_accepts_export_reachable hist h0 ⟨rfl, rfl, rfl, rfl, rfl, rfl, rfl, rfl, rfl⟩ (by decide)
+    (by set_option maxRecDepth 8000 in decide)
+
+/-- with a real reward block at the end (height 100 = the check window; `manageRewards` sorts the provers
+with `mergeSort`, which `decide` cannot unfold: evaluated by the kernel, no axiom involved): the block
+runs 30 days after the purchase, releases the gauge's tokens, pays them to the prover and keeps the prover -/
+example :
+    let s := SI.runH h0 (hist ++ [.ev (.block 100 2592000000000000)])
+    Canine.Bank.bal (SI.runH h0 hist).bank "jkl1gauge1" "ujkl" = 13999 ∧ Canine.Bank.bal (SI.runH h0 hist).bank "jkl1p1" "ujkl" = 4000 ∧
+    Canine.Bank.bal s.bank "jkl1gauge1" "ujkl" = 1 ∧ Canine.Bank.bal s.bank "jkl1p1" "ujkl" = 17998 ∧
+    s.files.map (fun kv => kv.2.proofs.map (·.1)) = [["jkl1p1"]] ∧ s.gauges.map (·.1) = ["6761"] := by
+  decide +kernel
+
+example : Storage.Inv (SI.runH h0 (hist ++ [.ev (.block 100 2592000000000000)])) ∧ Storage.RawInv (SI.runH h0 (hist ++ [.ev (.block 100 2592000000000000)])) :=
+  C19_storage_reachable _ h0 ⟨rfl, rfl, rfl, rfl, rfl, rfl, rfl, rfl, rfl⟩ (by decide)
+
+/-- `SlashFree` is not vacuous: a file whose owner text contains the separator breaks it — and `RawInv`
+with it: ("a/b", "c") and ("a", "b/c") are two decoded keys with the one raw key "a/b/c/7/" -/
+example : ¬ SI.SlashFree { h0 with files := [(("aa", "x/y", 7), file1)] } := by
+  intro h
+  exact absurd (h.files ("aa", "x/y", 7) file1 (by decide)).2 (by decide)
+
+example : ¬ Storage.RawInv { h0 with files := [(("a/b", "c", 7), file1), (("a", "b/c", 7), file1)] } := by
+  intro h
+  exact absurd h.files (by unfold RawNodup; decide)
 
 end C19Ex
 
